@@ -52,3 +52,13 @@ def gen_sstable(items):
             raise Fail('sstable/src/dictionary.rs: footer length of Dictionary::open not found')
         return D('SSTABLE_FOOTER_LEN', int(m.group(1)), 'Dictionary::open: index_offset u64, num_terms u64, version u32')
     items.append(footer_len)
+
+    def inverted_guard():
+        # does file_slice_for_range return an empty slice when the lower bound's block lies after the
+        # upper bound's block (instead of building a slice whose start is after its end)?
+        body = fn_body('sstable/src/dictionary.rs', 'file_slice_for_range')
+        if not re.search(r'self\.sstable_slice\.slice\(\(\s*start_bound\s*,\s*end_bound\s*\)\)', body):
+            raise Fail('sstable/src/dictionary.rs: file_slice_for_range no longer ends in sstable_slice.slice((start_bound, end_bound))')
+        g = re.search(r'if\s+let\s+\(\s*Some\((\w+)\)\s*,\s*Some\((\w+)\)\s*\)\s*=\s*\(\s*first_block_id\s*,\s*last_block_id\s*\)\s*\{\s*if\s+\1\s*>\s*\2\s*\{\s*return\s+FileSlice::empty\(\)\s*;', body)
+        return D('RANGE_INVERTED_GUARD', 1 if g else 0, 'file_slice_for_range: `first_block_id > last_block_id => return FileSlice::empty()` present (1) or absent (0)')
+    items.append(inverted_guard)
